@@ -20,16 +20,19 @@ ASSUME_B = ["preemption only at runtime entry points and shim operations (mutex,
 def heap_key(run, v, res=None):
     """Key of a violation for the known-findings file. One listed finding needs a precise
     key: the generational collector promotes whole 64 KiB pages at every full collection and
-    never compacts the old generation, so enough full collections with a little surviving
-    data in between exhaust the heap page by page (sparse-page promotion)."""
+    never compacts the old generation, so full collections with a little surviving data spread
+    over the young pages exhaust the heap page by page (sparse-page promotion)."""
     if v[0] == "trap:OOM" and run["exe"][1] == "swiper" and res is not None:
+        # the symptom itself, measured by a hook at the trap: the committed old generation
+        # (regular pages) fills at least half of the maximum heap although the script keeps
+        # only a few hundred KiB reachable
         st = res.get("stats") or {}
         heap_mb = 128
         m = re.search(r"--max-heap-size=(\d+)M", run["dora_flags"])
         if m:
             heap_mb = int(m.group(1))
-        collections = st.get("stw_operations", 0)
-        if collections * 65536 >= 0.4 * (heap_mb << 20):
+        oom_heap = st.get("oom_heap") or [0, 0, 0]
+        if oom_heap[1] >= 0.5 * (heap_mb << 20):
             return "swiper:sparse-page-promotion:trap:OOM"
     if v[0] == "trap:OOM" and run["exe"][1] == "sweep" and run["exe"][0].split("@")[0] == "heapgraph":
         # non-moving collector: survivors spread by KEEPCHURN, then a request that needs a
